@@ -307,8 +307,6 @@ Spec == Init /\ [][Next]_vars
 -----------------------------------------------------------------------------
 (* C21, listing. *)
 
-Count(x) == Cardinality({i \in 1..Len(out) : out[i].k = "item" /\ out[i].x = x})
-
 (* What the family can list of the documented selection. *)
 Expected == {x \in DocExpected(data, sel, excl) : x.t \in Lists(fam)}
 
